@@ -22,5 +22,9 @@ for m in mods:
             continue
         if all(p.kind == p.POSITIONAL_OR_KEYWORD for p in ps):
             out['%s.%s' % (m.__name__, k)] = [p.name for p in ps]
+            # literal defaults (numbers, text, None, booleans), so that a positional call can fill a gap the way the caller would
+            dv = {p.name: p.default for p in ps if p.default is not p.empty and (p.default is None or isinstance(p.default, (bool, int, float, str)))}
+            if dv:
+                out['%s.%s#defaults' % (m.__name__, k)] = dv
 json.dump(out, open(os.path.join(HERE, 'api_signatures.json'), 'w'), indent=1, sort_keys=True)
 print(len(out), 'signatures pinned')
